@@ -17,7 +17,7 @@ Driver for C13.  `T` is `i` (`int`), `u` (`unsigned`), `l` (`long`, 64 bit), `m`
       `shrink`/`stretch_absolute`, digest over p ∈ [lo,hi]^n of `extend_bounding_box(box, p)` and `contains_point`, digest over the
       factor lattice of `stretch_relative`
 * `shr T n min max v`                  — `shrink`, `stretch_absolute`, and `stretch_absolute(shrink(b,v),v)`
-* `extp T n min max p`                 — `extend_bounding_box(box, p)`, `contains_point(box, p)`
+* `extp T n min max p`                 — `extend_bounding_box(box, p)`, `contains_point(box, p)` (p as a static vector and as a row view of a matrix)
 * `strel T n min max f`                — `stretch_relative(box, f)`
 * `prog T n amin amax bmin bmax v P`   — run the statement sequence P (`,`-separated codes of `Instr`, `-` = empty) on the
       objects A, B, V; print the final objects and observations
@@ -136,7 +136,7 @@ def shrLine (t : Ty) {n : Nat} (b : Box n) (v : Vec n) : String :=
   s!"shrink={showM showBox s} stretch={showM showBox (stretchAbsolute t b v)} back={showM showBox back}"
 
 def extpLine {n : Nat} (b : Box n) (p : Vec n) : String :=
-  s!"ext={showBox (extendPoint b p)} in={b01 (containsPoint b p)}"
+  s!"ext={showBox (extendPoint b p)} in={b01 (containsPoint b p)}{b01 (containsPoint b p)}"
 
 def strelLine (t : Ty) {n : Nat} (b : Box n) (f : Vec n) : String :=
   s!"strel={showM showBox (stretchRelative t b f)}"
@@ -172,7 +172,7 @@ def unaryLine (tl : String) (t : Ty) {n : Nat} (b : Box n) (lo hi : Int) : Strin
   s!"size={showM showVec sz} pos={showVec b.min} max={showVec b.max}{sides b} corners={corners} " ++
   s!"center={showM showVec (center t b)} null={showM showBox (null t n)} rt={showM showBox rt1}|{showBox rt2}|{showM showBox rt3} " ++
   s!"self={showM b01 (eq t b b)}{showM b01 (ne t b b)}{showM b01 (lt t b b)}{b01 (contains b b)}{b01 (intersects b b)} " ++
-  s!"iv={intervals b} out={showM id (output t b)} alias={aliasPart t b} cast={casts} " ++
+  s!"calls={natList (initTrace n)}|{natList (initTrace n)} iv={intervals b} out={showM id (output t b)} alias={aliasPart t b} cast={casts} " ++
   s!"sh={hex64 hs} xp={hex64 hp} sr={hex64 hr}"
 
 def Instr.ofCode (s : String) : Option Instr := Instr.all.find? (fun i => i.code == s)
